@@ -248,10 +248,35 @@ structure Mon where
   /-- peers whose `on_success` was accepted (returned `true`) -/
   accepted : List Nat
   fin : Bool
+  /-- the peers the lookup has learned of, sorted by distance (states are not tracked here: every
+  entry is `NotContacted`); rebuilt from the observable history only -/
+  shadow : List (Nat × PState)
+  /-- "stalled or not", derived from the observable history by the documented rule: `parallelism`
+  consecutive accepted responses without progress ⇒ stalled; a response with progress ⇒ iterating -/
+  st : IState
+  /-- `num_waiting()` observed after the previous call = in-flight requests before this call -/
+  nw : Nat
 deriving Repr
 
 def monInit (cfg : Cfg) (kValue n : Nat) (known : List Nat) : Mon :=
-  ⟨cfg, n, known.take kValue, [], [], false⟩
+  ⟨cfg, n, known.take kValue, [], [], false, (known.take kValue).foldl ins [], .iterating 0, 0⟩
+
+/-- the in-flight limit that applies in the derived state -/
+def capOf (cfg : Cfg) (st : IState) : Nat :=
+  match st with
+  | .stalled => max cfg.numResults cfg.parallelism
+  | _ => cfg.parallelism
+
+/-- update of the derived progress state by an accepted response (the documented rule of
+`on_success`: progress = fewer than `num_results` peers known, or a new peer closer than the
+`num_results`-th closest known one) -/
+def shadowStep (m : Mon) (op : Op) (out : Out) : Mon :=
+  match op, out with
+  | .success p closer, .bool true =>
+    let r := closer.foldl (addCloser (curRange m.shadow m.cfg.numResults p))
+      (m.shadow, decide (m.shadow.length < m.cfg.numResults))
+    { m with shadow := r.1, st := nextState m.cfg m.st r.2 }
+  | _, _ => m
 
 def sortedAsc : List Nat → Bool
   | [] => true
@@ -288,6 +313,7 @@ def monCore (m : Mon) (op : Op) (out : Out) (o : Obs) : Mon × Option String :=
       else if m.issued.contains p then (m, some "peer_twice")
       else if !m.learned.contains p then (m, some "unknown_peer")
       else if !o.waiting.contains p then (m, some "issued_not_waiting")
+      else if !(decide (m.nw < capOf m.cfg m.st)) then (m, some "inflight_bound_when_progressing")
       else ({ m with issued := p :: m.issued }, none)
     | .next _, .waiting none =>
       if m.fin then (m, some "finished_absorbing")
@@ -313,8 +339,9 @@ def monCore (m : Mon) (op : Op) (out : Out) (o : Obs) : Mon × Option String :=
 
 def monStep (m : Mon) (op : Op) (out : Out) (o : Obs) : Mon × Option String :=
   let r := monCore m op out o
-  match r.2 with
-  | some k => (r.1, some k)
-  | none => (r.1, monCommon r.1 o)
+  ({ shadowStep r.1 op out with nw := o.nw },
+    match r.2 with
+    | some k => some k
+    | none => monCommon r.1 o)
 
 end C39
